@@ -259,7 +259,8 @@ def _pdu_catalogue(k: int) -> t.Tuple[str, bytes]:
     if kind == "request":
         return kind, rpce.build_request(stub, ctx_id=v, opnum=v * 3)
     if kind == "request_obj":
-        return kind, rpce.build_request(stub, ctx_id=v, opnum=v, obj=uuid.UUID(int=v * 1234567 + 1))
+        # (the nil UUID is a value like any other when PFC_OBJECT_UUID says an object UUID is present)
+        return kind, rpce.build_request(stub, ctx_id=v, opnum=v, obj=uuid.UUID(int=(v * 1234567 + 1) if v % 4 else 0))
     if kind == "response":
         return kind, rpce.build_response(stub, ctx_id=v, cancel_count=v % 3)
     if kind == "response_auth":
@@ -301,7 +302,7 @@ def _libenc_obj(k: int):
     if ptype in (rpc.PacketType.BIND_ACK, rpc.PacketType.ALTER_CONTEXT_RESP):
         cls = rpc.BindAck if ptype == rpc.PacketType.BIND_ACK else rpc.AlterContextResponse
         res = [rpc.ContextResult(rpc.ContextResultCode(j % 4), j, uuid.UUID(int=j * 977), j) for j in range(k % 5)]
-        obj = cls(header=hdr, sec_trailer=trailer, max_xmit_frag=4280 + k, max_recv_frag=4280, assoc_group=k * 31, sec_addr="9" * (k % 6), results=res)
+        obj = cls(header=hdr, sec_trailer=trailer, max_xmit_frag=4280 + k, max_recv_frag=4280, assoc_group=k * 31, sec_addr=("9" * (k % 6)) if k % 7 != 3 else ("\\PIPE\\ls\u00e4ss", "\u20ac1", "n\u00e4\u00e4", "\U0001F600")[(k // 7) % 4], results=res)
     elif ptype == rpc.PacketType.RESPONSE:
         stub = bytes(rng.randrange(256) for _ in range((k * 4) % 64))
         obj = rpc.Response(header=hdr, sec_trailer=trailer, alloc_hint=len(stub), context_id=k % 9, cancel_count=k % 3, stub_data=stub)
@@ -396,6 +397,27 @@ def run_threads(case) -> dict:
     r = random.Random(seed)
     jobs = [[(r.choice(("cat", "cat", "lib", "lib", "vt", "epm", "ctx")), r.randrange(600)) for _ in range(r.randint(3, 10))] for _ in range(n_threads)]
     return threadpure.run("C12", "codec", case, jobs, _codec_job, seed, policy)
+
+
+def run_cat(case) -> dict:
+    """["cat", k]: catalogue PDU k (reference-encoded, well-formed) is decoded and re-encoded by the library, nothing else running."""
+    from dpapi_ng._rpc._pdu import PDU
+
+    _, k = case
+    kind, raw = _pdu_catalogue(k)
+    viol = None
+    try:
+        obj = PDU.unpack(raw)
+        again = bytes(obj.pack())
+        if again != raw:
+            viol = common.violation("C12", "codec", "sequential", "re-encode-differs", kind, "", f"catalogue PDU {k} ({kind}): decode + encode gives {len(again)} bytes instead of the {len(raw)} received; first difference at {next((i for i, (a, b_) in enumerate(zip(again, raw)) if a != b_), min(len(again), len(raw)))}")
+        else:
+            back = PDU.unpack(again)
+            if repr(back) != repr(obj):
+                viol = common.violation("C12", "codec", "sequential", "fields-change", kind, "", f"catalogue PDU {k} ({kind}): decoding the re-encoded bytes gives other field values")
+    except Exception as e:  # noqa: BLE001
+        viol = common.violation("C12", "codec", "sequential", "well-formed-pdu-not-decoded", kind, "", f"catalogue PDU {k} ({kind}): {e!r}")
+    return {"viol": viol, "digest": kind, "key": common.key_hash(case), "fired": {}, "probes": {"catalogue_round_trips": 1}, "vtime_ns": 0}
 
 
 def run_scale(case) -> dict:
@@ -596,7 +618,7 @@ class C12(common.Check):
                   "reference server / monitor": "model (ref.rpce)", "security context": "stub", "transport": "simulated, with in-flight adversary"}
     assumptions = ["decode(encode(x)) = x is claimed only for messages that cross the wire between the three parties (values no party sends are outside the technique)",
                    "NDR referent ids are free: NDR64 stubs are compared through the independent decoder"]
-    required_fired = ("codec_lib", "codec_ref", "reqtear", "replytear", "tear_vt", "libenc", "libenc_drep_be", "thread_cases", "thread_overlap", "scale_cases") + tuple("tower_len_mod8_%d" % i for i in range(8)) + tuple("vt_kind_%d" % i for i in range(9))
+    required_fired = ("codec_lib", "codec_ref", "reqtear", "replytear", "tear_vt", "libenc", "libenc_drep_be", "thread_cases", "thread_overlap", "scale_cases", "catalogue_round_trips") + tuple("tower_len_mod8_%d" % i for i in range(8)) + tuple("vt_kind_%d" % i for i in range(9))
 
     def cases(self, tier, seed):
         out = []
@@ -626,6 +648,8 @@ class C12(common.Check):
         for k in range(0, 300 if tier == "quick" else 20000):
             pol = {"mode": "prob", "p": (0.01, 0.1, 0.4)[k % 3]} if k % 2 else {"mode": "points", "n": 1 + k % 5, "horizon": (200, 2000)[(k // 2) % 2]}
             out.append(["threads", rng.getrandbits(30), 2 + k % 3, pol])
+        for k in range(0, 11 * (40 if tier == "quick" else 200)):
+            out.append(["cat", k])
         from checks import epmstub
 
         for shape in epmstub.SHAPES:
@@ -638,7 +662,7 @@ class C12(common.Check):
 
     def run_case(self, case):
         try:
-            return {"conv": run_conv, "epm": run_epm, "types": run_types, "tear": run_tear, "libenc": run_libenc, "threads": run_threads, "scale": run_scale}[case[0]](case)
+            return {"conv": run_conv, "epm": run_epm, "types": run_types, "tear": run_tear, "libenc": run_libenc, "threads": run_threads, "scale": run_scale, "cat": run_cat}[case[0]](case)
         except wiremon.MonitorHarnessError as e:
             raise common.HarnessError(str(e))
 
@@ -648,7 +672,7 @@ class C12(common.Check):
             k = (c[0], c[1], c[2]) if c[0] in ("tear", "conv", "epm") else (c[0],)
             if c[0] == "tear":
                 k = k + (c[3],)
-            if k not in seen and c[0] not in ("threads", "scale"):
+            if k not in seen and c[0] not in ("threads", "scale", "cat"):
                 seen.add(k)
                 try:
                     self.run_case(c)
@@ -675,7 +699,7 @@ class C12(common.Check):
         names = {"conv": ("kind", "codec", "flavour", "n_contexts", "n_transfer_syntaxes", "sec_addr_len", "token_size", "stub_len", "vt_variant", "reply_len"),
                  "epm": ("kind", "codec", "flavour", "tower_variant", "status"), "types": ("kind", "flavour", "pdu_variant"),
                  "tear": ("kind", "direction", "flavour", "conversation", "seed"), "libenc": ("kind", "flavour", "variant"),
-                 "threads": ("kind", "seed", "n_threads", "policy"), "scale": ("kind", "shape", "k")}[case[0]]
+                 "threads": ("kind", "seed", "n_threads", "policy"), "scale": ("kind", "shape", "k"), "cat": ("kind", "catalogue_index")}[case[0]]
         return dict(zip(names, case))
 
 
